@@ -62,7 +62,7 @@ def mid_surrogate(line, col):
     return 0xDC00 <= unit <= 0xDFFF
 
 
-def script_case(idx, c, ws, origin, warm=False):
+def script_case(idx, c, ws, origin, warm=False, retype=False):
     files = wcommon.files_of(c)
     f = c["files"][origin]
     positions = []
@@ -86,6 +86,12 @@ def script_case(idx, c, ws, origin, warm=False):
     if warm and len(f["abs"]) >= 2 and f["abs"][-1]["type"] == "tx":
         cut = f["firsts"][-1] - 1
         earlier = "\n".join(f["lines"][:cut]) + "\n"
+    if warm and ws and origin == 0 and any(e["type"] == "include" for e in f["abs"]) and retype:
+        # the root first holds a text WITHOUT its include directives (the tree shrinks to the root), then they are typed:
+        # the files they name, and the files those include, must all be back
+        inc_lines = {f["firsts"][k] - 1 for k, e in enumerate(f["abs"]) if e["type"] == "include"}
+        earlier = "\n".join("" if li in inc_lines else ln for li, ln in enumerate(f["lines"])) + "\n"
+        cut = 0
     if earlier is not None:
         ops.append({"op": "open", "file": f["name"], "text": earlier})
         ops.append({"op": "sweep", "file": f["name"], "kinds": ["hover"], "positions": [p for p in positions if p[0] < cut][:12]})
@@ -232,12 +238,13 @@ def run_cases(run, cases, table=None):
                 for warm in ((False, True) if (ci + origin) % 2 == 0 or c.get("_warm") else (False,)):
                     if c.get("_warm") is not None and warm != c["_warm"]:
                         continue
-                    hc, meta = script_case(len(hcases), c, ws, origin, warm)
+                    retype = c.get("_retype", ci % 4 == 0)
+                    hc, meta = script_case(len(hcases), c, ws, origin, warm, retype)
                     hcases.append(hc)
-                    metas.append((ci, ws, origin, meta, warm))
+                    metas.append((ci, ws, origin, meta, warm, retype))
     results = run.harness("script", hcases, timeout=3000)
     nprobes = 0
-    for hc, (ci, ws, origin, meta, warm), res in zip(hcases, metas, results):
+    for hc, (ci, ws, origin, meta, warm, retype), res in zip(hcases, metas, results):
         c = cases[ci]
         f = c["files"][origin]
         scope_root = 0 if ws else origin
@@ -269,7 +276,7 @@ def run_cases(run, cases, table=None):
                 seen.add(sig)
                 run.diverge(("after-history:" if warm else "") + sig, "%s  [file %s line %d col %d: %r; workspace root %s%s]" % (
                                 what, f["name"], li + 1, col, f["lines"][li], ws, "; the other files were opened and closed first, the document changed and changed back" if warm else ""),
-                            {"spec_case": c, "ws": ws, "origin": origin, "warm": warm, "probe": [li, col, k, info]}, it["r"])
+                            {"spec_case": c, "ws": ws, "origin": origin, "warm": warm, "retype": retype, "probe": [li, col, k, info]}, it["r"])
     return nprobes
 
 
@@ -279,7 +286,7 @@ def main(args):
     if args.replay:
         with open(args.replay) as f:
             rp = json.load(f)
-        cases = [dict(rp["case"]["spec_case"], _warm=bool(rp["case"].get("warm")))]
+        cases = [dict(rp["case"]["spec_case"], _warm=bool(rp["case"].get("warm")), _retype=bool(rp["case"].get("retype")))]
     else:
         thorough = run.tier == "thorough"
         cases = wcommon.gen(run, 60 if not thorough else 1200, maxtx=3)
@@ -310,7 +317,7 @@ def confirm(run, d):
     cs = d["case"]
     c = cs["spec_case"]
     warm = bool(cs.get("warm"))
-    hc, meta = script_case(0, c, cs["ws"], cs["origin"], warm)
+    hc, meta = script_case(0, c, cs["ws"], cs["origin"], warm, bool(cs.get("retype")))
     res = run.harness("script", [hc])[0]
     tabs = wcommon.tables_index(c["tables"][0 if cs["ws"] else cs["origin"]])
     if "panic" in res:
